@@ -54,9 +54,12 @@ if ev:
     meta["detection"].append({"procedure": "scratch harness copy pointing at a worktree with the patch (tools/eval_seed_scratch.py)",
                               "property": ev.get("property"), "exit": ev.get("exit"), "detected": ev.get("detected"),
                               "lines": ev.get("lines", [])[:4]})
-off = f"{src}/result.json"
-if os.path.exists(off):
+for off in (f"{src}/result-first.json", f"{src}/result.json"):
+    if not os.path.exists(off):
+        continue
     r = json.load(open(off))
+    if any(d.get("at") == r.get("at") for d in meta["detection"]):
+        continue
     meta["detection"] = [d for d in meta["detection"] if d.get("procedure", "").startswith("scratch") or (d.get("at") and d.get("at") != r.get("at"))]
     for prop, res in r["results"].items():
         meta["detection"].append({"procedure": "official: git -C /repo apply patch.diff; ./check %s --tier %s; git -C /repo apply -R" % (prop, r["tier"]),
